@@ -302,10 +302,13 @@ pub struct Switches {
 
 impl Switches {
     pub fn from_env() -> Switches {
-        let off = |k: &str| std::env::var(k).map(|v| v == "0").unwrap_or(false);
+        // Both findings these switches steered around have been fixed in /repo (see
+        // known_findings.json): the switches now default to OFF so the formerly excluded
+        // regions are explored at full depth. Setting the variable to "1" re-enables one.
+        let on = |k: &str| std::env::var(k).map(|v| v == "1").unwrap_or(false);
         Switches {
-            exclude_short_chain: !off("VERIF_C16_EXCLUDE_SHORT_CHAIN"),
-            exclude_dxt_partial_blocks: !off("VERIF_C16_EXCLUDE_DXT_PARTIAL"),
+            exclude_short_chain: on("VERIF_C16_EXCLUDE_SHORT_CHAIN"),
+            exclude_dxt_partial_blocks: on("VERIF_C16_EXCLUDE_DXT_PARTIAL"),
         }
     }
 }
